@@ -30,7 +30,7 @@ RULE = ("each run draws capacity 1-12, a refill rate from {0.005..50}/s, 1-5 pee
         "bound over the admitted history. distinct = distinct (config, decision-vector, eviction "
         "pattern) signatures; non-trivial = at least one refusal AND (an eviction or a concurrent "
         "burst or a second address) occurred")
-PROBES = ["wall_clock_stepped_during_the_run", "peer_reset_after_admission", "requests_with_varying_client_certificate", "many_address_flood", "config_from_toml", "cleanup_race_scenario", "eviction_happened", "refusal", "slow_refill_run", "concurrent_burst", "wire_mode",
+PROBES = ["wire_mode_over_tls", "uploads_in_wire_mode", "peer_says_goodbye_with_its_request", "wall_clock_stepped_during_the_run", "peer_reset_after_admission", "requests_with_varying_client_certificate", "many_address_flood", "config_from_toml", "cleanup_race_scenario", "eviction_happened", "refusal", "slow_refill_run", "concurrent_burst", "wire_mode",
           "idle_ge_600_with_partial_bucket"]
 COMPONENTS = {
     "real": ["nauyaca.server.middleware.RateLimiter/TokenBucket/MiddlewareChain",
@@ -167,7 +167,8 @@ def run_one(ch):
         res.stats["wall_clock_stepped_during_the_run"] += 1
     model = Model(cap, rate)
     decisions = []     # (t, ip, allow, response)
-    st = {"evictions": 0, "burst": False, "idle_partial": False, "leaver": False, "fp": False}
+    st = {"evictions": 0, "burst": False, "idle_partial": False, "leaver": False, "fp": False,
+          "titan": False, "goodbye": False}
 
     rl_holder = {}
 
@@ -258,6 +259,7 @@ def run_one(ch):
             """harness spy directly in front of the limiter: records entry order"""
             async def process_request(self, url, ip, fp=None):
                 order.append((net.now, ip))
+                seen_as[url] = ip
                 return True, None
 
         class Slow:
@@ -269,11 +271,21 @@ def run_one(ch):
 
         slow_delay = {}
         exits = []
+        admitted_urls = set()
+        seen_as = {}       # url -> address the chain was told
+        true_ip = {}       # url -> address the request really came from
+        executed = []      # urls whose upload was carried out
+
+        class Upload:
+            async def handle_upload(self, request):
+                executed.append(str(getattr(request, "raw_url", "")).split(";")[0])
+                return GeminiResponse(status=20, meta="text/plain", body="stored")
 
         class Exit:
             """harness spy directly behind the limiter: reached = the limiter admitted"""
             async def process_request(self, url, ip, fp=None):
                 exits.append(ip)
+                admitted_urls.add(url)
                 return True, None
 
         comps = ([Slow()] if slow_mw else []) + [Entry(), rl, Exit()]
@@ -293,12 +305,15 @@ def run_one(ch):
                 await asyncio.sleep(hd)
                 return r
             return later()
-        server = await sim.loop.create_server(
-            lambda: GeminiServerProtocol(handler, chain), "srv.sim", 1965)
+        import sim.serverwire as sw
+        wmode = ch.pick("wiremode", ["plain", "pyopenssl", "stdlib"], [3, 2, 1])
+        server = await sw.start_protocol_server(sim, wmode, handler, chain, Upload(), host="srv.sim")
+        if wmode != "plain":
+            res.stats["wire_mode_over_tls"] += 1
         peers = []
         known = set()
         port = 50000
-        for i in range(nev):
+        for i in range(nev if wmode == "plain" else min(nev, 20)):
             gap = gaps[ch.choose("gap", len(gaps), gw)]
             if gap:
                 await asyncio.sleep(gap)
@@ -313,12 +328,25 @@ def run_one(ch):
                     slow_delay[ip] = ch.pick("slowd", [0.0, 0.01, 0.2, 1.0])
                 port += 1
                 ep = raw_connect(net, "srv.sim", 1965, src=(ip, port))
-                script = [("send", b"gemini://srv.sim/x\r\n")]
+                if ch.chance("titan", 0.25):
+                    # an upload: request line and content as two writes (two TLS records)
+                    u = f"titan://srv.sim/up/u{port}.txt"
+                    script = [("send", (u + ";size=3;mime=text/plain\r\n").encode()), ("send", b"abc")]
+                    st["titan"] = True
+                else:
+                    u = f"gemini://srv.sim/x{port}"
+                    script = [("send", u.encode() + b"\r\n")]
+                true_ip[u] = ip
                 if async_h and ch.chance("leaver", 0.4):
                     script += [("sleep", ch.pick("leave_after", [0.002, 0.02, 0.2])), ("rst",)]
                     leavers.add(port)
                     st["leaver"] = True
-                p = RawPeer(net, ep, script, name=f"p{port}")
+                elif ch.chance("goodbye", 0.2):
+                    # says goodbye (close_notify / FIN) right behind its request, in the same flight
+                    script += [("close",)]
+                    leavers.add(port)
+                    st["goodbye"] = True
+                p = RawPeer(net, ep, script, tls_ctx=sw.peer_tls_ctx(wmode), name=f"p{port}")
                 p.c10_port = port
                 peers.append((ip, p))
             known |= set(getattr(rl, "buckets", {}).keys())
@@ -336,7 +364,7 @@ def run_one(ch):
             data = bytes(p.rx_plain)
             if p.c10_port in leavers:
                 continue
-            if data.startswith(b"20 text/plain\r\nok"):
+            if data.startswith(b"20 text/plain\r\nok") or data.startswith(b"20 text/plain\r\nstored"):
                 got.setdefault(ip, []).append(True)
             elif data.startswith(b"44 "):
                 got.setdefault(ip, []).append(False)
@@ -347,6 +375,19 @@ def run_one(ch):
             else:
                 res.violate("C10/wire-unexpected-response", f"peer from {ip} got {data[:80]!r}")
                 return
+        for u, told in seen_as.items():
+            key_u = u.split(";")[0]
+            if key_u in true_ip and told != true_ip[key_u]:
+                res.violate("C10/charged-to-another-address",
+                            f"the request {key_u} came from {true_ip[key_u]} but the limiter was told "
+                            f"{told!r}", wire_mode=wmode)
+                break
+        for u in executed:
+            if not any(a.split(";")[0] == u for a in admitted_urls):
+                res.violate("C10/refused-request-carried-out",
+                            f"the upload {u} was carried out although the limiter did not admit it",
+                            wire_mode=wmode, admitted=len(admitted_urls))
+                break
         exp = {}
         for t, ip in order:
             lvl = model.level(ip, t)
@@ -478,6 +519,10 @@ def run_one(ch):
         res.stats["wire_mode"] += 1
     if st["leaver"]:
         res.stats["peer_reset_after_admission"] += 1
+    if st["titan"]:
+        res.stats["uploads_in_wire_mode"] += 1
+    if st["goodbye"]:
+        res.stats["peer_says_goodbye_with_its_request"] += 1
     if st["fp"]:
         res.stats["requests_with_varying_client_certificate"] += 1
     if st["idle_partial"]:
